@@ -149,11 +149,32 @@ class Functor(IUnifiable):
         else:
             return YPFail()
 
+def _copy_term(term, mapping):
+    """Returns a copy of term in which all current bindings are applied and every unbound
+    variable is replaced by a new one. mapping maps the variables replaced so far to their
+    replacements, so that a variable shared between several terms stays shared."""
+    if isinstance(term, Variable):
+        term = term.get_value()
+        if isinstance(term, Variable):
+            if term not in mapping:
+                mapping[term] = Variable()
+            return mapping[term]
+    if isinstance(term, Functor):
+        return Functor(term._name, [_copy_term(a, mapping) for a in term._args])
+    return term
+
 class Answer:
-    """Data structure to represent predicates/facts."""
+    """Data structure to represent predicates/facts. A fact holds a copy of the values as
+    they are when it is created, and its variables are renamed for every match, so that
+    neither later bindings of the original variables nor other uses of the fact affect it."""
     def __init__(self, values):
-        self.values = values
+        mapping = {}
+        self.values = [_copy_term(v, mapping) for v in values]
+        self._has_variables = len(mapping) > 0
     def match(self, args):
+        if self._has_variables:
+            mapping = {}
+            return unify_arrays(args, [_copy_term(v, mapping) for v in self.values])
         return unify_arrays(args, self.values)
     def __str__(self):
         return f'Answer({[to_python(x) for x in self.values]})'
@@ -500,7 +521,7 @@ class YP(object):
             # indexedanswers
         except YPException as e:
             clauses = []
-        answer = Answer([get_value(v) for v in values])
+        answer = Answer(values)
         if append:
             clauses.append(answer)
         else:
